@@ -20,7 +20,7 @@ RULE = (
     "recordings == one-shot recordings (1e-10) and returned states == manual stepper state at the last returned time point; "
     "a state is (model, config, number of steps simulated so far, checkpoint variant); transitions are integrate calls"
 )
-REQUIRED_COVER = ["first_part_is_1", "last_part_is_1", "all_ones", "prod_gt_steps_with_return_states", "exact_factorisation",
+REQUIRED_COVER = ["overlap_sample", "state_reads_current", "first_part_is_1", "last_part_is_1", "all_ones", "prod_gt_steps_with_return_states", "exact_factorisation",
                   "manual_stepper", "clamp", "synapse_model", "fwd_euler"]
 ASSUMPTIONS = [
     "tolerance 1e-10 relative (observed agreement is bit-for-bit on the unchanged tree)",
@@ -34,6 +34,9 @@ CONFIGS = {
                      "schemes": ["bwd_euler", "crank_nicolson"]},
     "net_syn": {"stim": lambda m: m.cell(0).branch(0).comp(0), "clamp": ("v", lambda m: m.cell(1).branch(1).comp(0)),
                 "schemes": ["bwd_euler", "crank_nicolson"]},
+    # a channel whose update reads a membrane current: the current entries of the returned state matter
+    "cell_pump": {"stim": lambda m: m.branch(0).comp(0), "clamp": ("CaL_q", lambda m: m.branch(1).comp(0)),
+                  "schemes": ["bwd_euler"]},
 }
 BACKENDS = ["jaxley.stone", "jaxley.thomas", "jax.sparse"]
 
@@ -58,6 +61,9 @@ def _setup(model_name):
     elif model_name == "cell_hh_leak":
         m.branch(0).record("HH_h", verbose=False)
         m.branch(1).record("i_Leak", verbose=False)
+    elif model_name == "cell_pump":
+        m.record("CaAcc_c", verbose=False)
+        m.branch(0).record("i_Ca", verbose=False)
     else:
         m.record("HH_n", verbose=False)
         m.record("i_HH", verbose=False)
@@ -148,13 +154,15 @@ def run_config(model_name, scheme, backend, n, variants, comps=None):
     out["cover"].append("clamp")
     if model_name == "net_syn":
         out["cover"].append("synapse_model")
+    if model_name == "cell_pump":
+        out["cover"].append("state_reads_current")
     if scheme == "fwd_euler":
         out["cover"].append("fwd_euler")
     for variant in variants:
         for comp in (comps or list(scope.compositions(n))):
             if variant != "none" and len(comp) == 1 and variant == "exact" and False:
                 continue
-            pieces, st, lo, ok = [], None, 0, True
+            pieces, pieces_full, st, lo, ok = [], [], None, 0, True
             for j, k in enumerate(comp):
                 try:
                     rec, st = _integrate(m, model_name, lo, lo + k, n, scheme, backend, _ckpt(k, variant), st)
@@ -163,6 +171,17 @@ def run_config(model_name, scheme, backend, n, variants, comps=None):
                     ok = False
                     break
                 out["transitions"] += 1
+                if j > 0:
+                    # the first returned column of a continued run is the state it was started from = last column of the previous run
+                    prev_last = pieces_full[-1][:, -1]
+                    d0 = float(np.max(np.abs(rec[:, 0] - prev_last) / (1 + np.abs(prev_last))))
+                    out["cover"].append("overlap_sample")
+                    if not np.isfinite(d0) or d0 > TOL:
+                        bad = int(np.argmax(np.abs(rec[:, 0] - prev_last)))
+                        viol("overlap_sample", variant, comp,
+                             f"segment {j}: column 0 differs from the previous segment's last column by {d0} (row {bad}: "
+                             f"{m.recordings.state.iloc[bad]})")
+                pieces_full.append(rec)
                 pieces.append(rec if j == 0 else rec[:, 1:])
                 lo += k
                 # state after this segment must be the state at the last returned time point
